@@ -47,6 +47,7 @@ def instances(tier, seed):
     add("rt:full:no-terms-no-coeffs", style='full', N=2, terms={}, tilt='zero', c0=None, cost=10)
     add("rt:full:emptied-kind-with-table", style='full', N=2, terms={}, tilt='zero', c0=1, tables_without_terms=True, cost=10)
     add("rt:atomic:no-cell", style='atomic', N=2, terms={'bond': 1}, tilt=None, c0=6, cost=10)
+    add("rt:full:terms-without-coefficient-tables", style='full', N=2, terms={'bond': 1, 'angle': 1}, tilt='zero', c0=None, type_hi=3, cost=30)
     add("dispatch:path-and-file", family='dispatch', cost=3)
     add("wide-fields", family='wide', cost=2)
     if tier == 'thorough':
@@ -87,7 +88,7 @@ def build(ctx, p):
         ar = ARITY[k]
         n = p['terms'][k]
         ends = [[ctx.int(f"{k[0]}{k[1]}{j}_{c}", 0, N - 1) for c in range(ar)] for j in range(n)]
-        tys = [ctx.int(f"{k[0]}{k[1]}t{j}", 0, ncoef[k] - 1) for j in range(n)]
+        tys = [ctx.int(f"{k[0]}{k[1]}t{j}", 0, p.get('type_hi', ncoef[k] - 1) if c0 is None else ncoef[k] - 1) for j in range(n)]
         sp.terms[k] = list(zip(ends, tys))
         setattr(a, k + 's', ctx.arr(ends))
         setattr(a, k + '_types', ctx.arr(tys))
@@ -156,7 +157,7 @@ def independent_read(ctx, text):
                     hdr[key] = int(w[0])
             for key in ('atom types', 'bond types', 'angle types', 'dihedral types', 'improper types'):
                 if len(w) == 3 and ' '.join(w[1:]) == key:
-                    hdr[key] = int(w[0])
+                    hdr[key] = fieldval(ctx, w[0])[0]
             for key in ('xlo xhi', 'ylo yhi', 'zlo zhi'):
                 if len(w) == 4 and ' '.join(w[2:]) == key:
                     hdr[key] = (w[0], w[1])
@@ -192,6 +193,11 @@ def body(ctx, p):
             want_types = len(tab) if (len(tab) or n == 0) else None
             if want_types:
                 ok = ok and hdr.get(f'{k} types') == want_types
+            elif n:
+                # no coefficient table: the declared number of types must cover every type id in use (1-based ids in the file)
+                decl = hdr.get(f'{k} types')
+                ctx.require(f'declared number of {k} types covers every {k} type id in use',
+                            AND(decl is not None, *[ty + 1 <= (decl if decl is not None else 0) for _, ty in sp.terms[k]]), detail=dict(declared=str(decl)))
             ok = ok and len(sect.get({'bond': 'Bonds', 'angle': 'Angles', 'dihedral': 'Dihedrals', 'improper': 'Impropers'}[k], [])) == n
             sec = {'bond': 'Bond Coeffs', 'angle': 'Angle Coeffs', 'dihedral': 'Dihedral Coeffs', 'improper': 'Improper Coeffs'}[k]
             ok = ok and len(sect.get(sec, [])) == len(tab)
@@ -203,7 +209,7 @@ def body(ctx, p):
             ok = ok and raw == ' %d %s' % (r + 1, a.pair_coeffs[r])
         for r, (w, com, raw) in enumerate(sect.get('Masses', [])):
             ok = ok and w[0] == str(r + 1) and abs(float(w[1]) - [12.0107, 14.0067][r]) < 1e-6 and com == ['C_R', 'N_3'][r]
-        ctx.require('written header counts, sections, masses and coefficient rows state the structure', bool(ok), detail=dict(hdr={k: str(v) for k, v in hdr.items()}))
+        ctx.require('written header counts, sections, masses and coefficient rows state the structure', bool(ok), detail=dict(hdr={k_: str(v) for k_, v in hdr.items()}))
         if not ok:
             return
         if cell is not None:
